@@ -6,7 +6,9 @@
 From Coq Require Import ZArith QArith Qcanon List Bool.
 From DV Require Import Base.Field Base.LinAlg Base.QcInst Model.Enums Model.Homog Model.Rotation Model.Grid
   Model.Sampler Model.SamplerQc Model.Transform Model.TransformQc Gen.Hmm Gen.GridT Gen.LinInv Gen.Transform
-  Proofs.C06Fresh Proofs.C06Views Proofs.C06Composite Proofs.C06Warp Proofs.C06Pullback Proofs.C06Refuted.
+  Model.TransformGeneric
+  Proofs.C06Fresh Proofs.C06Views Proofs.C06Composite Proofs.C06Warp Proofs.C06Pullback Proofs.C06Refuted
+  Proofs.C06Strided Proofs.C06Sequence Proofs.C06Generic Proofs.C06Zero.
 Import ListNotations.
 Local Open Scope fld_scope.
 
@@ -289,6 +291,141 @@ Theorem C06_warp_nonrigid_other_domain_refuted :
 Proof. exact warp_other_domain_refuted. Qed.
 Print Assumptions C06_warp_nonrigid_other_domain_refuted.
 
+(* ================================================================ 5. round 2: generic loops, strided buffers, generic configs *)
+(* SequentialTransform.forward, generic branch, ANY member list: the first member receives the composite's grid flag, every
+   later member is applied as a point map (flag false), in listed order; with flag false it is the composition of point maps *)
+Theorem C06_sequence_forward_any :
+  forall (K : fld) (m : fmember (K:=K)) (r : list fmember) (grid : bool) (x : list K),
+  seq_forward (m :: r) grid x = fold_left (fun y m' => m' false y) r (m grid x).
+Proof. exact seq_forward_any. Qed.
+Print Assumptions C06_sequence_forward_any.
+
+Theorem C06_sequence_point_map_is_composition :
+  forall (K : fld) (ms : list (fmember (K:=K))) (x : list K),
+  seq_forward ms false x = fold_left (fun y m => m false y) ms x.
+Proof. exact seq_forward_is_composition. Qed.
+Print Assumptions C06_sequence_point_map_is_composition.
+
+(* MultiLevelTransform.forward, generic branch with the flag, ANY member list *)
+Theorem C06_multilevel_point_map_any :
+  forall (K : fld), is_field K -> forall (ms : list (fmember (K:=K))) (x : list K),
+  Forall (fun m => length (m false x) = length x) ms ->
+  ml_forward_flag ms false x = vadd x (vsum_list (length x) (map (fun y => vsub y x) (map (fun m => m false x) ms))).
+Proof. exact ml_forward_flag_false. Qed.
+Print Assumptions C06_multilevel_point_map_any.
+
+(* the flags the TRACED composites hand to their members (Sequential and MultiLevel; linear-then-nonrigid, nonrigid-then-linear,
+   longer mixed lists; flag true and false) are those of the loop model: only member 0 can be told that the points are the
+   undeformed lattice.  Generated table, so a change of the flag logic breaks this theorem. *)
+Theorem C06_composite_grid_flag_traced :
+  forallb (fun e => flags_ok (snd e)) gen_composite_flag_table = true /\ (10 <= length gen_composite_flag_table)%nat.
+Proof. exact composite_flags_traced. Qed.
+Print Assumptions C06_composite_grid_flag_traced.
+
+(* every resize / sampling kernel on the dense-field paths (evaluate, disp on a coarse or resized buffer, forward(points),
+   forward(lattice, grid=True); DisplacementField and SVF, stride 2, resize in {False, True}, both flags, 2-D and 3-D) is reached
+   with the expected target shape and is handed the align_corners flag of the transform's grid *)
+Theorem C06_dense_path_flags_traced :
+  forallb (fun e => let '(_, ac, kernel_ok, flag) := e in
+                    kernel_ok && match flag with Some b => Bool.eqb b ac | None => false end) gen_dense_path_table = true /\
+  (24 <= length gen_dense_path_table)%nat.
+Proof. exact dense_paths_traced. Qed.
+Print Assumptions C06_dense_path_flags_traced.
+
+(* own-grid dense field of a buffer kept on ANY other lattice of the domain (stride > 1, resize = False): disp() = the buffer
+   resized with the grid's flag, and x_j + disp()[j] = transform(x_j) at every lattice point, 2-D and 3-D, all sizes *)
+Theorem C06_strided_disp_is_point_map_2d :
+  forall (K : fld), is_field K -> char0 K -> forall (floorK : K -> Z) (ac : bool) (nx ny : Z) (ux uy : list (list K)) (jx jy : nat),
+  size_ok K nx -> size_ok K ny -> (Z.of_nat jx < nx)%Z -> (Z.of_nat jy < ny)%Z ->
+  vadd (lattice2 K ac nx ny jx jy) (disp_own2 K floorK ac nx ny ux uy jx jy)
+  = warp_points2 floorK ac ux uy (lattice2 K ac nx ny jx jy).
+Proof. exact disp_strided_is_point_map2. Qed.
+Print Assumptions C06_strided_disp_is_point_map_2d.
+
+Theorem C06_strided_disp_is_point_map_3d :
+  forall (K : fld), is_field K -> char0 K -> forall (floorK : K -> Z) (ac : bool) (nx ny nz : Z) (ux uy uz : list (list (list K)))
+    (jx jy jz : nat),
+  size_ok K nx -> size_ok K ny -> size_ok K nz -> (Z.of_nat jx < nx)%Z -> (Z.of_nat jy < ny)%Z -> (Z.of_nat jz < nz)%Z ->
+  vadd (lattice3 K ac nx ny nz jx jy jz) (disp_own3 K floorK ac nx ny nz ux uy uz jx jy jz)
+  = warp_points3 floorK ac ux uy uz (lattice3 K ac nx ny nz jx jy jz).
+Proof. exact disp_strided_is_point_map3. Qed.
+Print Assumptions C06_strided_disp_is_point_map_3d.
+
+(* ImageTransformer with a composite running the generic loop, first member a dense field, target = a lattice of the
+   transform's domain of ANY size: the output is the image sampled at the composition of the member POINT maps *)
+Theorem C06_warp_sequence_same_domain :
+  forall (K : fld), is_field K -> char0 K -> forall (floorK : K -> Z)
+    (pad : padmode) (ac : bool) (ux uy : list (list K)) (r : list (fmember (K:=K)))
+    (tg g src : gridf) (img : list (list K)) (nx ny : Z) (jx jy : nat),
+  gwf 2 tg -> gwf 2 g -> gN 2 tg = [of_Z nx; of_Z ny] ->
+  (forall Y, length Y = 2%nat -> g_to_world 2 (cubeax ac) tg Y = g_to_world 2 (cubeax ac) g Y) ->
+  size_ok K nx -> size_ok K ny -> (Z.of_nat jx < nx)%Z -> (Z.of_nat jy < ny)%Z ->
+  let ms := ddf_member2 floorK ac ux uy nx ny jx jy :: r in
+  let j := [of_Z (Z.of_nat jx); of_Z (Z.of_nat jy)] in
+  warp_seq_out2 floorK pad ac ms true tg g src img j
+  = match gen_pts2 2 (cubeax ac) (cubeax ac) (gN 2 g) (gS 2 g) (gC 2 g) (gD 2 g) (gN 2 src) (gS 2 src) (gC 2 src) (gD 2 src)
+            (seq_point_map ms (lattice2 K ac nx ny jx jy)) with
+    | [x; y] => grid_sample2 floorK pad ac img x y
+    | _ => 0
+    end.
+Proof. exact warp_sequence_same_domain. Qed.
+Print Assumptions C06_warp_sequence_same_domain.
+
+(* ... and with a first member that ignores the flag (every linear transform), for ANY target grid *)
+Theorem C06_warp_sequence_linear_first :
+  forall (K : fld) (floorK : K -> Z) (pad : padmode) (ac : bool) (m : fmember (K:=K)) (r : list fmember)
+    (tg g src : gridf) (img : list (list K)) (j : list K),
+  (forall p, m true p = m false p) ->
+  warp_seq_out2 floorK pad ac (m :: r) true tg g src img j = warp_seq_out2 floorK pad ac (m :: r) false tg g src img j.
+Proof. exact warp_sequence_linear_first. Qed.
+Print Assumptions C06_warp_sequence_linear_first.
+
+(* the point API of ANY transform acting as a map T of its own cube coordinates (non-rigid models, composites) is the
+   world map of T re-expressed (the base-class points()/PointSetTransformer plumbing is traced for a non-linear transform too) *)
+Theorem C06_views_agree_points_any_transform :
+  forall (K : fld), is_field K -> char0 K ->
+  forall D : nat, D = 2%nat \/ D = 3%nat ->
+  forall (T : list K -> list K) (ac : bool) (g g1 g2 : gridf) (A B : axes) (X : list K),
+  (forall Y, length Y = D -> length (T Y) = D) ->
+  gwf D g -> gwf D g1 -> gwf D g2 -> length X = D ->
+  view_points2_gen D T ac g A g1 B g2 X = g_from_world D B g2 (world_map_gen D T ac g (g_to_world D A g1 X)).
+Proof. exact points2_gen_is_world_map. Qed.
+Print Assumptions C06_views_agree_points_any_transform.
+
+(* fresh non-rigid models: zero parameters; a zero buffer of any size resized to any lattice is the zero field; a zero field is
+   the identity (3-D; 2-D above) *)
+Theorem C06_fresh_nonrigid_identity_3d :
+  forall (K : fld), is_field K -> forall (floorK : K -> Z) (ac : bool),
+  (forall (nx ny : nat) (mx my : Z), resize2 floorK ac mx my (zero2 K nx ny) = zero2 K (Z.to_nat mx) (Z.to_nat my)) /\
+  (forall (nx ny nz : nat) (mx my mz : Z),
+     resize3 floorK ac mx my mz (zero3 K nx ny nz) = zero3 K (Z.to_nat mx) (Z.to_nat my) (Z.to_nat mz)) /\
+  (forall (a b c d e f g h i : nat) (x y z : K),
+     warp_points3 floorK ac (zero3 K a b c) (zero3 K d e f) (zero3 K g h i) [x; y; z] = [x; y; z]).
+Proof.
+  intros K Kf floorK ac. exact (conj (resize2_zero K Kf floorK ac) (conj (resize3_zero K Kf floorK ac) (fresh_field_is_identity3 K Kf floorK ac))).
+Qed.
+Print Assumptions C06_fresh_nonrigid_identity_3d.
+
+(* generic configurable transform (spatial/generic.py, constructor traced): every traced configuration applies its members in
+   the order its notation denotes ("A o B": B first; affine_model letters: right-most first) with the documented classes, and
+   every traced linear configuration is the identity when fresh.  (It IS a SequentialTransform, so C06_sequential_order and
+   C06_sequence_forward_any describe how the members are applied.) *)
+Theorem C06_generic_order_traced :
+  forallb (generic_row_ok gen_generic_affine_names gen_generic_affine_classes gen_generic_nonrigid_classes) gen_generic_table = true /\
+  stable_eqb gen_generic_affine_classes documented_affine_classes = true /\
+  stable_eqb gen_generic_nonrigid_classes documented_nonrigid_classes = true /\
+  (12 <= List.length gen_generic_table)%nat.
+Proof. exact generic_order_traced. Qed.
+Print Assumptions C06_generic_order_traced.
+
+Theorem C06_generic_fresh_identity :
+  forall (K : fld), is_field K ->
+  Forall (fun e : form * list (list K) => forall x : nat -> K, form_apply 2 (fst e) (snd e) (vtab 2 x) = vtab 2 x) gen_generic_fresh_2 /\
+  Forall (fun e : form * list (list K) => forall x : nat -> K, form_apply 3 (fst e) (snd e) (vtab 3 x) = vtab 3 x) gen_generic_fresh_3 /\
+  (6 <= List.length (gen_generic_fresh_2 (K:=K)))%nat /\ (7 <= List.length (gen_generic_fresh_3 (K:=K)))%nat.
+Proof. exact generic_fresh_identity. Qed.
+Print Assumptions C06_generic_fresh_identity.
+
 (* non-vacuity: a rotated anisotropic grid satisfies gwf, a non-trivial member list satisfies m_ok, and the world
    map of a non-trivial transform moves points *)
 Definition ex_grid : gridf (K:=QcF) :=
@@ -301,4 +438,12 @@ Example C06_nonvacuous :
   veqb (world_map (K:=QcF) 2 FH [[q 3 5; q (-4) 5; q 1 4]; [q 4 5; q 3 5; q 0 1]] false ex_grid [q 1 1; q 2 1]) [q 1 1; q 2 1] = false /\
   veqb (m_apply (K:=QcF) 2 (seq_tensor 2 ex_members) [q 1 1; q 1 1]) [q 4 1; q 2 1] = true /\
   veqb (happly (K:=QcF) 2 (ml_tensor 2 ex_members) [q 1 1; q 1 1]) [q 7 2; q 2 1] = true.
+Proof. vm_compute. repeat split. Qed.
+
+(* non-vacuity of the round-2 hypotheses: sizes >= 2 satisfy size_ok over Qc; a coarse 2 x 2 buffer resized to a 3 x 3 lattice *)
+Example C06_nonvacuous_round2 :
+  qeqb (of_Z (K:=QcF) 3) (q 0 1) = false /\ qeqb (@fsub QcF (of_Z 3) (@f1 QcF)) (q 0 1) = false /\
+  veqb (disp_own2 QcF floorQ false 3 3 [[q 0 1; q 1 4]; [q 1 2; q 1 1]] [[q 0 1; q 0 1]; [q 1 8; q 1 8]] 1 1) [q 7 16; q 1 16] = true /\
+  veqb (seq_forward (K:=QcF) [(fun _ p => vadd (K:=QcF) p [q 1 2; q 0 1]); (fun _ p => vscale (K:=QcF) (q 2 1) p)] true [q 1 1; q 1 1])
+       [q 3 1; q 2 1] = true.
 Proof. vm_compute. repeat split. Qed.
